@@ -447,6 +447,8 @@ def collect(rep, prop, tier, seed, exe, replay=None):
         progs, cases, hist = gen(rng, tier)
     work = os.path.join(CACHE, "work", "%s-%s" % (prop, tier))
     records, build_fail = run_programs("V", "drv_conv.hpp", progs, cases, configs, work, exe, nshards=16, name="conv")
+    import incoq
+    incoq_n = incoq.sample_check(rep, prop, "V", records, tier, seed, work, replay)
     for (sh_, cfg, blog) in {c: (s_, c, l) for (s_, c, l) in reversed(build_fail)}.values():
         rep.violation("conversion driver shard %d no longer builds in configuration %s" % (sh_, cfg),
                       {"obligation": "corr:conv/build/%d/%s" % (sh_, cfg), "log": blog[-3000:], "signature": "build:conv:%s" % cfg}, True)
@@ -476,7 +478,7 @@ def collect(rep, prop, tier, seed, exe, replay=None):
         if len(seen) >= 6:
             break
     return {
-        "evaluations": evaluations, "distinct_nontrivial": len(nontriv),
+        "evaluations": evaluations, "distinct_nontrivial": len(nontriv), "evaluated_inside_coq_too": incoq_n,
         "rule": "programs = ordered pairs (source mapping type, target mapping type) over layout x index type x pattern x padding, by conversion family "
                 "(same layout, left<->right / padded<->padded for rank<=1, anything->stride, stride->left/right/padded with canonical strides, padded->left/right with "
                 "padded stride = extent), values satisfying that conversion's precondition; plus equality pairs per family with equal and perturbed "
